@@ -23,9 +23,9 @@ def panel_offsets(surfaces):
 
 
 def permutation(rep, tier, timeout):
-    sets = [[("a", 2, 2, True), ("b", 2, 3, False)]]
+    sets = [[("a", 2, 2, True), ("b", 2, 3, False)], [("a", 2, 2, True), ("b", 2, 3, False), ("c", 3, 2, True)]]
     if tier == "thorough":
-        sets += [[("a", 2, 2, True), ("b", 2, 3, False), ("c", 3, 2, True)]]
+        sets += [[("a", 3, 3, True), ("b", 4, 3, False), ("c", 2, 4, True)]]
     for spec in sets:
         surfs = [K.surface(nx, ny, symm, name=nm) for (nm, nx, ny, symm) in spec]
         orders = [list(range(len(surfs))), list(reversed(range(len(surfs))))]
@@ -72,7 +72,7 @@ def permutation(rep, tier, timeout):
 def split(rep, tier, timeout):
     """A full-span surface split at an interior station into two abutting surfaces: same rings, hence the same
     influence matrix / right-hand side up to the panel permutation, and the same forces."""
-    cfgs = [(2, 5, 2)] if tier == "quick" else [(2, 5, 2), (2, 5, 1), (3, 5, 2)]
+    cfgs = [(2, 5, 2), (3, 5, 1)] if tier == "quick" else [(2, 5, 2), (2, 5, 1), (3, 5, 2), (4, 7, 3), (2, 7, 5), (3, 5, 3)]
     for (nx, ny, k) in cfgs:
         full_mesh = K.rect_mesh(nx, ny, False)
         sf = K.surface_from_mesh(full_mesh, False, name="whole")
